@@ -863,7 +863,14 @@ class FnLower:
             params, _ = fsig_params(ftype) if '(' in ftype else ([], '')
             tag = sig_tag(params)
             nm = ('std_' + name if name in EXT_FREE else 'ext_' + name) + ('__' + tag if tag else '')
-        return dict(kind='ext', name=nm, selfp=None, args=args, noexcept=noex)
+        return dict(kind='ext', name=self.fix_lambda_names(nm), selfp=None, args=args, noexcept=noex)
+
+    def fix_lambda_names(self, nm):
+        """closure types are printed as (lambda at file:line:col); use the stable closure name instead"""
+        def rep(m):
+            r = self.L.rec_lookup('(lambda at /x/%s.hpp:%s:%s)' % (m.group(1), m.group(2), m.group(3)))
+            return r.cname if r is not None else m.group(0)
+        return re.sub(r'lambda_([A-Za-z0-9]+)_(\d+)_(\d+)', rep, nm)
 
     def call(self, n, mode, dest=None):
         q = qt(n)
